@@ -16,6 +16,11 @@ import ExoVerif.Model.VotingPower
   over the stored entries, every entry written back); shapeGetOperatorOptedUSDValue ↔ `getOpted`;
   shapeOperatorAfterEpochEnd + shapeGetEpochEndAVSs ↔ `epochEnd`/`selected`;
   shapeGetMultipleAssetsPrices ↔ the harness-resolved `AssetCfg` list (fallback price 1 / decimal 0).
+* Two pointed facts (tools/exofacts/facts_vphook.go): `hookUpdateErrorExits` — what the error branch
+  of the per-AVS loop of AfterEpochEnd does (`continue`); the model's loop `hookLoopWith` takes this as
+  a parameter and `C05_tie_hook_loop` instantiates it with the regenerated value (with `return` the
+  isolation theorem is false: `C05_return_on_error_does_not_isolate`). `selfAmountSource` — the amount
+  the self value is computed from is `TokensFromShares(OperatorShare, TotalShare, TotalAmount)`.
 -/
 namespace ExoVerif.VP
 open ExoVerif.Gen
@@ -257,6 +262,28 @@ theorem C05_tie_shapeIterateAssetsForOperator : shapeIterateAssetsForOperator =
     "end if",
     "end for",
     "return nil"] := rfl
+
+/-- the loop action the regenerated error branch of AfterEpochEnd stands for -/
+def errActionOf : List String → Option ErrAction
+  | ["continue"] => some .next
+  | ["end-of-body"] => some .next          -- nothing after the error check: the next AVS follows
+  | ["return"] => some .stop
+  | ["break"] => some .stop
+  | _ => none
+
+/-- the branch taken when UpdateVotingPower fails for one AVS `continue`s with the next AVS of the
+list (regenerated from impl_epoch_hook.go on every run) -/
+theorem C05_tie_hook_error_branch : hookUpdateErrorExits = ["continue"] := rfl
+
+/-- the model's epoch-hook loop IS the generic loop instantiated with the regenerated error branch -/
+theorem C05_tie_hook_loop (inputs : List (String × AvsIn)) (s : St) (l : List String) :
+    (errActionOf hookUpdateErrorExits).map (fun act => hookLoopWith act inputs s l) = some (hookLoop inputs s l) := rfl
+
+/-- the self amount of CalculateUSDValueForOperator is the token equivalent of the operator's share
+(model: `opValue` calls `tokensFromShares ⟨operatorShare⟩ ⟨totalShare⟩ totalAmount`, itself tied by
+`C05_tie_tokensFromShares`) -/
+theorem C05_tie_selfAmountSource : selfAmountSource =
+    "delegationkeeper.TokensFromShares(state.OperatorShare, state.TotalShare, state.TotalAmount)" := rfl
 
 def idxOf (x : String) : List String → Nat
   | [] => 0
